@@ -150,7 +150,7 @@ def fresh_vars(n=40):
 CONSTS = ['x', '"s"', 7, 0, 0.0, -1.5, None, 'k', '"u\u2028v"', '"w\x0bx \x85y"']
 
 
-def random_connected_graph(rng, nvars=None, nextra=None, roles=None, consts=None, with_numbers=True):
+def random_connected_graph(rng, nvars=None, nextra=None, roles=None, consts=None, with_numbers=True, numeric_concepts=False):
     """Triples of a well-formed, weakly connected graph (each var one instance), shuffled by caller."""
     roles = roles or [':ARG0', ':ARG1', ':op1', ':op2', ':op10', ':mod', ':quant', ':ARG0-of']
     consts = consts or (CONSTS if with_numbers else ['x', '"s"', 'k', None])
@@ -159,7 +159,7 @@ def random_connected_graph(rng, nvars=None, nextra=None, roles=None, consts=None
     triples = []
     for i, v in enumerate(V):
         concept = rng.choice(['x', 'y', None, V[0], '"c"']) if rng.random() < .9 else rng.choice(V)
-        if with_numbers and rng.random() < .08:
+        if numeric_concepts and rng.random() < .12:
             concept = rng.choice([0, 0.0, 7, -1.5])       # a hand-built graph may carry a number as a concept
         triples.append((v, ':instance', concept))
         if i:
